@@ -23,6 +23,7 @@ import (
 	"Havoc/pkg/logger"
 	"Havoc/pkg/logr"
 	"Havoc/pkg/profile"
+	"Havoc/pkg/service"
 
 	"github.com/gin-gonic/gin"
 
@@ -97,6 +98,13 @@ func New(parent string, opt Options) (*World, error) {
 	w.TS.Profile = p
 	w.TS.Server.Path = dir
 	w.TS.Server.Engine = gin.New()
+	if opt.Service {
+		// as Teamserver.Start does for a profile with a Service block
+		w.TS.Service = service.NewService(w.TS.Server.Engine)
+		w.TS.Service.Teamserver = w.TS
+		w.TS.Service.Data.ServerAgents = &w.TS.Agents
+		w.TS.Service.Config = *p.Config.Service
+	}
 	w.Loot = filepath.Join(dir, "data", "loot")
 	logr.LogrInstance = logr.NewLogr(dir, w.Loot)
 	if logr.LogrInstance == nil {
